@@ -39,9 +39,14 @@ ASSUMPTIONS = ["per-part codec laws (sig_ok S) are hypotheses, validated here on
                "byte-level rendering / escaping by quick-xml and the plist crate is exercised (expat, independent reader), not proved"]
 
 KNOWN_WRITER = {  # class id -> (generator switch, which directions fail)
-    "glyph_lib_linebreak": "glyph_lib_linebreaks", "note_blanks": "note_blanks", "flush_to_zero": "f2_numbers",
-    "note_cr": "cr_in_note", "advance_subnormal": "subnormal_advance", "attr_whitespace": "attr_ws",
+    "glyph_lib_linebreak": "glyph_lib_linebreaks", "note_blanks": "note_blanks",
+    "note_cr": "cr_in_note", "attr_whitespace": "attr_ws",
 }
+
+
+# generator switches of repaired / harmless classes: part of the main stream (tiny and near-integer
+# numbers, sub-normal advances, minor version with a foreign creator, CR in plist strings, empty contours)
+MAIN_GEN = ["f13_meta", "cr_in_plist", "empty_contours", "f2_numbers", "subnormal_advance"]
 
 
 def anchors(ctx):
@@ -250,17 +255,17 @@ def run(ctx, known, built):
             json.dump(w["font"], open(fpath, "w"))
             _run_stream(ctx, fc, ufoio, "w_" + fn[:-5], ctx.seed, 1, [], [c for c in w.get("style_classes", [])],
                         known_ids, stats, None, witness_font=fpath, fixed_style=w.get("style"), rng_seed=w.get("rng_seed", 1))
-            if sum(stats["class_hits"].values()) == before[1]:
+            if sum(stats["class_hits"].values()) == before[1] and not str(w.get("class", "")).startswith("regression"):
                 stale.append(fn)
     ctx.note("witnesses done")
     # main stream: valid fonts outside every known class (f13_meta / cr_in_plist are repaired or harmless)
-    _run_stream(ctx, fc, ufoio, "main", ctx.seed, n_main, ["f13_meta", "cr_in_plist", "empty_contours"], [], known_ids, stats, corr)
+    _run_stream(ctx, fc, ufoio, "main", ctx.seed, n_main, MAIN_GEN, [], known_ids, stats, corr)
     ctx.note("main stream done")
     # the known classes, one stream each
     for cid, sw in sorted(KNOWN_WRITER.items()):
-        _run_stream(ctx, fc, ufoio, "g_" + sw, ctx.seed + 17, n_class, [sw, "f13_meta"], [], known_ids, stats, None)
+        _run_stream(ctx, fc, ufoio, "g_" + sw, ctx.seed + 17, n_class, [sw] + MAIN_GEN, [], known_ids, stats, None)
     for c in fc.SURFACE_CLASSES:
-        _run_stream(ctx, fc, ufoio, "s_" + c, ctx.seed + 29, max(4, n_class // 2), ["f13_meta"], [c], known_ids, stats, None)
+        _run_stream(ctx, fc, ufoio, "s_" + c, ctx.seed + 29, max(4, n_class // 2), MAIN_GEN, [c], known_ids, stats, None)
     ctx.note("class streams done")
     # ---------------- correspondence: model (Coq) vs implementation
     nd = 0
